@@ -1,3 +1,4 @@
+import Varint.Bridge.Adaptive
 import Varint.Lemmas.Adaptive
 import Varint.Model.Adaptive
 import Varint.Lemmas.Delta
@@ -162,5 +163,17 @@ theorem adaptive_forced_all (xs : List Nat) (hne : xs ≠ []) (hx : ∀ x ∈ xs
   ⟨pfor_forced xs ⟨hne, hn, hx⟩ rest, fun h => dict_forced xs hx hn h rest,
    fun ha hl cap => bitmap_forced_cap xs ha hl rest cap, delta_forced xs hx rest,
    for_forced xs ⟨hne, hx, by omega⟩ rest, tagged_forced TAGGED (by simp [TAGGED]) xs hx (by omega) rest⟩
+
+/-- **on the machine translation of `varintAdaptiveCheckSorted`** (the loop with its early exit, regenerated from
+    src/varintAdaptive.c on every run): the answer the selector's `isSorted` / `isReverseSorted` flags are derived from
+    is exact for every array — 1 iff non-decreasing, else -1 iff non-increasing, else 0: no neighbour pair is skipped
+    (the BITMAP arm, which stores a set, is only sound for input that really is ascending) -/
+theorem c_check_sorted_exact (xs : List Nat) (hn : xs.length < 2 ^ 63) (fuel : Nat) (hf : xs.length ≤ fuel) :
+    Varint.Gen.C.adaptiveCheckSorted fuel (Varint.Bridge.Tagged.bufOf xs) xs.length =
+      some (if (Adaptive.analyze xs).isSorted then 1 else if (Adaptive.analyze xs).isReverseSorted then -1 else 0) := by
+  rw [Varint.Bridge.Adaptive.adaptiveCheckSorted_eq xs hn fuel hf]
+  unfold Adaptive.analyze
+  simp only []
+  cases Adaptive.isAsc xs <;> cases Adaptive.isDesc xs <;> rfl
 
 end Varint.Props.C06
